@@ -90,6 +90,9 @@ def snapshot():
               'warning_filters': len(warnings.filters), 'threads': threading.active_count(), 'switchinterval': sys.getswitchinterval(),
               'displayhook': id(sys.displayhook), 'excepthook': id(sys.excepthook), 'stdin': id(sys.stdin), 'stderr': id(sys.stderr),
               'sigint': id(signal.getsignal(signal.SIGINT)), 'umask_probe': None, 'trace': id(sys.gettrace()), 'profile': id(sys.getprofile()),
+              'logging_root_handlers': tuple(type(h).__name__ for h in __import__('logging').root.handlers), 'logging_root_level': __import__('logging').root.level,
+              'logging_disable': __import__('logging').root.manager.disable, 'locale': __import__('locale').setlocale(__import__('locale').LC_ALL),
+              'decimal_prec': __import__('decimal').getcontext().prec, 'tz_env': (os.environ.get('TZ'), __import__('time').tzname),
               'dont_write_bytecode': sys.dont_write_bytecode, 'int_max_str_digits': sys.get_int_max_str_digits() if hasattr(sys, 'get_int_max_str_digits') else None}
     return {'builtins': {k: id(v) for k, v in vars(builtins).items()}, 'modules': set(sys.modules), 'environ': dict(os.environ), 'cwd': os.getcwd(),
             'hszinc': mods, 'interp': interp}
@@ -455,7 +458,7 @@ def incomparable_task(dummy):
             warm.filter(t)
         except BaseException:  # noqa
             pass
-    for text in ('a == 5kW', 'a != 5kW', 'a < 5kW', 'a >= 5kW', 'a == 5kW and b', 'b or a > 1kW', 'r->a > 1kW', 'a < "x"', 'a > 2020-01-01', 'a == 12:00:00',
+    for text in ('a == 2021-03-04T05:06:07Z Atlantis', 'a < 2021-03-04T05:06:07+01:00 Not_A_Zone', 'a == 5kW', 'a != 5kW', 'a < 5kW', 'a >= 5kW', 'a == 5kW and b', 'b or a > 1kW', 'r->a > 1kW', 'a < "x"', 'a > 2020-01-01', 'a == 12:00:00',
                  'a < @r', 'a > `u`', 'a <= NaN', 'a == 5', 'a < true'):
         g.filter('a')                                    # nothing new is imported or compiled lazily inside the measured call
         snap0 = snapshot()
